@@ -7,14 +7,14 @@ Open Scope list_scope.
 Definition subset (a b : list msg) : bool := forallb (fun x => existsb (String.eqb x) b) a.
 
 (* (rules of the non-message nonterminals, history, options offered by the implementation, implementation says complete)
-   1 = agrees; 0 = the option sets differ; 2 = the completeness verdict differs; 5 = grammar not supported by the model (recursive / terminal outside a message) *)
+   1 = agrees; 0 = the option sets differ (3 = the implementation offers a proper part of them); 2 = the completeness verdict differs; 5 = grammar not supported by the model (recursive / terminal outside a message) *)
 Definition c19_eval (c : list (string * rhs) * list msg * list msg * bool) : nat :=
   let '(rules, h, opts, complete) := c in
   match inline 60 rules (Ref "<start>"%string) with
   | None => 5
   | Some r =>
       let '(next, comp) := forecast msg macc r h in
-      if negb (subset next opts && subset opts next) then 0
+      if negb (subset next opts && subset opts next) then (if subset opts next then 3 else 0)   (* 3: the implementation offers only a part *)
       else if negb (Bool.eqb comp complete) then 2 else 1
   end.
 
@@ -30,6 +30,17 @@ Definition c19_next (c : list (string * rhs) * list msg) : list msg :=
 Definition rename (tab : list (msg * msg)) (a : msg) : msg :=
   match assoc String.eqb a tab with Some b => b | None => a end.
 
+Fixpoint rename_re (tab : list (msg * msg)) (r : mre) : mre :=
+  match r with
+  | REmp _ => REmp _
+  | REps _ => REps _
+  | RAtom _ a => RAtom _ (rename tab a)
+  | RAlt _ a b => RAlt _ (rename_re tab a) (rename_re tab b)
+  | RCat _ a b => RCat _ (rename_re tab a) (rename_re tab b)
+  | RRep _ a mn mx => RRep _ (rename_re tab a) mn mx
+  end.
+
+(* the history is taken as labelled in the tree; the model's continuation set and the offered set are compared modulo [tab] *)
 Definition c19_eval_proj (c : list (string * rhs) * list msg * list msg * bool * list (msg * msg)) : nat :=
   let '(rules, h, opts, complete, tab) := c in
   match inline 60 rules (Ref "<start>"%string) with
